@@ -10,7 +10,7 @@ CONSTANTS
   AgesRepl = {2}
   NMulti = 2
   NOwnMulti = 3
-  StatesMulti = {"ACTIVE", "LEAVING"}
+  StatesMulti = {"ACTIVE"}
   AgesMulti = {2, 3}
   T = 2
 INIT Init
